@@ -107,6 +107,10 @@ def patterns(tier):
             c.random_two_qubit_gate(k % 2, 1 - k % 2)
         return [list(g) for g in c.gate_index_list]
     add('CliffordCircuit(seed).random_*', ccirc)
+    rho3 = np.diag([0.5, 0.3, 0.2]).astype(complex)
+    add('get_purification(rho,dimR=4,seed)', lambda s: numqi.utils.get_purification(rho3, dimR=4, seed=s))
+    add('get_completed_entangled_subspace((2,2,2),quant-ph/0405077,seed)', lambda s: numqi.matrix_space.get_completed_entangled_subspace((2, 2, 2), 'quant-ph/0405077', seed=s))
+    add('get_mps_dicke_transform_matrix(2,3,seed)', lambda s: numqi.entangle.pureb_quantum.get_mps_dicke_transform_matrix(2, 3, seed=s)[0])
     if tier == 'thorough':
         def cha(s):
             m = numqi.entangle.CHABoundaryBagging((2, 2), num_state=20)
